@@ -1,6 +1,8 @@
 package metrics
 
 import (
+	"context"
+	"sync/atomic"
 	"time"
 
 	"github.com/pkg/errors"
@@ -32,6 +34,18 @@ var (
 	}
 )
 
+// handlerObservedKey marks, in the message context, that an application of the middleware recording into
+// the same collector is observing the current handler invocation (middleware idempotency when applied twice).
+type handlerObservedKey struct {
+	collector *prometheus.HistogramVec
+}
+
+// handlerInvocation is active only while the invocation that set it is running, so a later invocation
+// with the same message (e.g. by the Retry middleware) is observed again.
+type handlerInvocation struct {
+	active atomic.Bool
+}
+
 // HandlerPrometheusMetricsMiddleware is a middleware that captures Prometheus metrics.
 type HandlerPrometheusMetricsMiddleware struct {
 	handlerExecutionTimeSeconds *prometheus.HistogramVec
@@ -42,12 +56,26 @@ func (m HandlerPrometheusMetricsMiddleware) Middleware(h message.HandlerFunc) me
 	return func(msg *message.Message) (msgs []*message.Message, err error) {
 		now := time.Now()
 		ctx := msg.Context()
+		key := handlerObservedKey{collector: m.handlerExecutionTimeSeconds}
+		if outer, ok := ctx.Value(key).(*handlerInvocation); ok && outer.active.Load() {
+			// middleware idempotency when applied multiple times: the enclosing application observes
+			return h(msg)
+		}
+		invocation := &handlerInvocation{}
+		invocation.active.Store(true)
+		marked := context.WithValue(ctx, key, invocation)
+		msg.SetContext(marked)
+
 		labels := prometheus.Labels{
 			labelKeyHandlerName: message.HandlerNameFromCtx(ctx),
 		}
 
 		panicked := true
 		defer func() {
+			invocation.active.Store(false)
+			if msg.Context() == marked {
+				msg.SetContext(ctx)
+			}
 			if err != nil || panicked {
 				labels[labelSuccess] = "false"
 			} else {
